@@ -61,3 +61,17 @@ pub fn set_max_tx_ex_units(env: &mut Environment, mem: u64, steps: u64) {
         _ => {}
     }
 }
+
+/// Lift the rules a synthesized transaction should not trip over: zero fee coefficients, no minimum
+/// lovelace per output, no size / value-size limit.
+pub fn relax(env: &mut Environment) {
+    set_minfee(env, 0, 0);
+    set_max_tx_size(env, u32::MAX);
+    match &mut env.prot_params {
+        P::Shelley(p) => p.min_utxo_value = 0,
+        P::Alonzo(p) => { p.ada_per_utxo_byte = 0; p.max_value_size = u32::MAX; }
+        P::Babbage(p) => { p.ada_per_utxo_byte = 0; p.max_value_size = u32::MAX; }
+        P::Conway(p) => { p.ada_per_utxo_byte = 0; p.max_value_size = u32::MAX; }
+        _ => {}
+    }
+}
